@@ -257,6 +257,26 @@ func (g *Gen) applyCall(ci *callInfo, st *State, r string, pos token.Pos, argOve
 				panic(fmt.Errorf("modifies item %s of %s is not an lvalue", m, ci.key))
 			}
 			switch {
+			case v.MapCells:
+				dk, vk, lk := g.mapHeapKinds(v.GoT.Underlying().(*types.Map))
+				for _, k := range []string{dk, vk, lk} {
+					fv := g.freshConst("hvm", g.u.kindSort[k])
+					g.setHeap(st, k, "(store "+g.heap(st, k)+" "+v.Addr+" "+fv+")")
+					if k == lk {
+						g.assume("(>= " + fv + " 0)")
+					}
+				}
+			case v.Root:
+				// every cell under the root object of the array may change
+				g.cellKinds(v.GoT, func(k string) {
+					hold := g.heap(st, k)
+					hn := g.fresh("Hr_" + k)
+					g.declare(hn, g.u.heapSort(k))
+					st.H[k] = hn
+					cond := "(not (= (l_obj l) (l_obj " + v.Addr + ")))"
+					g.assume("(forall ((l Loc)) (! (=> " + cond + " (= (select " + hn + " l) (select " + hold + " l))) :pattern ((select " + hn + " l))))")
+					g.frames = append(g.frames, havocFrame{kind: k, hn: hn, hpre: hold, conds: cond})
+				})
 			case v.Win != nil:
 				fs := g.freshConst("hvw", "(Seq Int)")
 				g.assume("(= (seq.len " + fs + ") " + v.Win.n + ")")
